@@ -77,7 +77,20 @@ class Tracker:
             sent = parse_sent(sl.op_bytes(op)) if op["t"] == "send" else []
             k0 = op.get("k")
             if op["t"] == "open":
-                self.live.add(k0)
+                refused = any("undecodable" not in f and fname(f) == "ERROR" and fget(f, "reason") == b"SERVER_OVERLOADED"
+                              for f in recv.get(k0, {"frames": []})["frames"])
+                if refused and len(self.live) < self.case["cfg"]["max_conns"]:
+                    self.viol.append(("C14", f"connection refused with SERVER_OVERLOADED while only {len(self.live)} connections are alive (max_connections {self.case['cfg']['max_conns']})", t))
+                if not refused and len(self.live) >= self.case["cfg"]["max_conns"] and not recv.get(k0, {}).get("closed"):
+                    self.viol.append(("C14", f"connection admitted while {len(self.live)} connections are alive (max_connections {self.case['cfg']['max_conns']})", t))
+                if not refused:
+                    self.live.add(k0)
+            if op.get("window"):
+                ids = [int(params["id"]) for (kind, params, pl) in sent if "id" in params]
+                got = [sl.frame_get(f, "id") for f in recv.get(k0, {"frames": []})["frames"] if "undecodable" not in f]
+                missing = [i for i in ids if i not in got]
+                if missing or recv.get(k0, {}).get("closed"):
+                    self.viol.append(("C14", f"a full window of {op['window']} pipelined requests was not served after earlier requests timed out: unanswered {missing}, closed={recv.get(k0, {}).get('closed')}", t))
             members_before = {c: set(m) for c, m in self.members.items()}
             users_before = dict(self.user)
             live_before = set(self.live)
@@ -103,6 +116,15 @@ class Tracker:
                     if n == "AUTH_ACK" and sl.frame_get(f, "succeeded") is True:
                         self.user[k] = fget(f, "nid")
                         self.check_identity(k, fget(f, "nid"), domain, t, exclusive=False)
+                        # C09: only the modulator's success to a token sent in THIS op authenticates, as exactly that name
+                        sc = [o for o in (op.get("script") or []) if isinstance(o, dict) and "auth_success" in o]
+                        toks = [1 for (kind, params, pl) in sent if kind == "AUTH"]
+                        if k != k0 or not toks:
+                            self.viol.append(("C09", f"conn {k} was authenticated without having sent an AUTH in this step", t))
+                        elif not sc:
+                            self.viol.append(("C09", f"conn {k} authenticated although the modulator did not answer success ({op.get('script')})", t))
+                        elif fget(f, "nid") != bytes.fromhex(sc[0]["auth_success"]) + b"@" + domain:
+                            self.viol.append(("C09", f"conn {k} authenticated as {fget(f, 'nid')!r} but the modulator returned {bytes.fromhex(sc[0]['auth_success'])!r}", t))
                     fid = sl.frame_get(f, "id") if any(fd["pname"] == "id" for fd in sl.cg.schema()[f["kind"]][2]) else None
                     if fid is not None and n not in ("PING", "PONG"):
                         if (k, fid) not in pending:
@@ -176,7 +198,9 @@ class Tracker:
                 if kind == "SET_CHAN_ACL" and "SET_CHAN_ACL_ACK" in names and params.get("type") == b"publish":
                     self.read_acl_touched.add(ch)   # conservative: completeness only checked on ACL-free channels
                 if kind == "BROADCAST":
-                    self.check_broadcast(t, k0, me, ch, pl, names, recv, members_before, op)
+                    same = [1 for (k2, p2, _) in sent if k2 == "BROADCAST" and p2.get("channel") == ch]
+                    if len(same) == 1:      # (pipelined bursts of broadcasts to one channel are judged by the C12 / stalled-reader monitors)
+                        self.check_broadcast(t, k0, me, ch, pl, names, recv, members_before, op)
                 if kind in ("SET_CHAN_ACL", "GET_CHAN_ACL", "SET_CHAN_CONFIG", "MEMBERS", "GET_CHAN_CONFIG") or \
                         (kind in ("JOIN", "LEAVE") and "on_behalf" in params):
                     errs = [fget(f, "reason") for f in myf if fname(f) == "ERROR"]
@@ -312,6 +336,8 @@ class Tracker:
             for f in v["frames"]:
                 if "undecodable" not in f and fname(f) == "MESSAGE" and fget(f, "channel") == ch:
                     msgs.append((k, f))
+        if expect is None and "BROADCAST_ACK" in names:
+            self.viol.append(("C08", "broadcast acknowledged although the modulator did not validate its payload", t))
         for k, f in msgs:
             if expect is None:
                 self.viol.append(("C08", f"payload delivered although the modulator did not validate it (conn {k})", t))
@@ -326,8 +352,8 @@ class Tracker:
         if "BROADCAST_ACK" in names and expect is not None and ch not in self.read_acl_touched:
             for u in members_before.get(ch, set()):
                 for k in self.conns_of(u):
-                    if k == k0:
-                        continue
+                    if k == k0 or k == self.case.get("stalled_resume"):
+                        continue      # (a deliberately stalled reader is judged by stalled_resume_check once it reads on)
                     n = len([1 for kk, _ in msgs if kk == k])
                     closed = recv.get(k, {}).get("closed", False)
                     if n != 1 and not closed:
@@ -501,4 +527,44 @@ def acl_check(case, obs):
                         if "undecodable" not in f and fname(f) == "MESSAGE" and fget(f, "channel") == ch and k in user:
                             if not allowed(reported[(ch, b"read")], user[k]):
                                 viol.append(("C03", f"{user[k]} received a MESSAGE of {ch} although the reported read list does not permit it", t))
+    return viol
+
+
+def stalled_resume_check(case, obs):
+    """C02 for a reader that stalled and then read on: what it finally received must be exactly the acknowledged
+    broadcasts of its channel, in order, each with an intact header (from / channel / length) and identical bytes."""
+    k = case.get("stalled_resume")
+    if k is None or "ops" not in obs:
+        return []
+    viol = []
+    user = {}
+    expected = []      # (from nid, channel, payload) of acknowledged broadcasts while k was a member
+    got = []
+    for t, (op, o) in enumerate(zip(case["ops"], obs["ops"])):
+        for kk, v in o["conns"].items():
+            for f in v["frames"]:
+                if "undecodable" in f:
+                    if int(kk) == k:
+                        viol.append(("C02", f"the resumed reader received an undecodable line: {bytes.fromhex(f['undecodable'])[:60]!r}", t))
+                    continue
+                if fname(f) == "IDENTIFY_ACK":
+                    user[int(kk)] = fget(f, "nid")
+                if int(kk) == k and fname(f) == "MESSAGE":
+                    got.append((fget(f, "from"), fget(f, "channel"), bytes.fromhex(f["payload"]), sl.frame_get(f, "length"), t))
+        if op["t"] == "send":
+            for (kind, params, pl) in parse_sent(sl.op_bytes(op)):
+                if kind == "BROADCAST" and params.get("channel") == b"!c1@localhost" and op["k"] != k:
+                    acks = [f for f in o["conns"].get(str(op["k"]), {"frames": []})["frames"] if "undecodable" not in f
+                            and fname(f) == "BROADCAST_ACK" and sl.frame_get(f, "id") == int(params["id"])]
+                    if acks:
+                        expected.append((user.get(op["k"]), b"!c1@localhost", pl))
+    closed = any(o["conns"].get(str(k), {}).get("closed") for o in obs["ops"])
+    if closed:
+        return viol      # disconnected with an outbound-queue error: the property's other alternative
+    if len(got) != len(expected):
+        viol.append(("C02", f"the resumed reader received {len(got)} MESSAGE frames for {len(expected)} acknowledged broadcasts", len(case["ops"]) - 1))
+    for (gf, gc, gp, gl, t), (ef, ec, ep) in zip(got, expected):
+        if gf != ef or gc != ec or gp != ep or gl != len(ep):
+            viol.append(("C02", f"the resumed reader received a MESSAGE from={gf} channel={gc} length={gl} that is not the acknowledged broadcast (from={ef}, {len(ep)} bytes)", t))
+            break
     return viol
